@@ -8,16 +8,18 @@ from vk.driver import Ob
 
 META = {
     "level": "other",
-    "technique": "bounded symbolic execution (CrossHair/z3) of the real template interpreter with symbolic substituted values against a reference evaluator that escapes per the TAL specification; of the python: gate with a symbolic flag and a canary in place of eval; of context snapshots around every expansion; exhaustive enumeration of a TAL-free document grammar for the pass-through claim (stated as enumeration)",
+    "technique": "bounded symbolic execution (CrossHair/z3) of the real template interpreter with symbolic substituted values against a reference evaluator that escapes per the TAL specification; of the python: gate with a symbolic flag and a canary in place of eval; of context snapshots around every expansion; for pass-through, of the real HTML compiler event handlers and interpreter with symbolic attribute values and text (the regex-driven parser in front of them is replaced by its validated event contract), plus exhaustive enumeration of a TAL-free document grammar through the whole parser (stated as enumeration)",
     "claim": "For content, replace and attributes (with and without `structure`) the real output under a symbolic value over the markup metacharacters equals "
     "the fixed skeleton with the value escaped for text / for attributes, raw only under structure; python: expressions reach eval iff allowPythonPath "
     "is truthy, for every routing form, and simpletal has no other eval/exec/compile/__import__ call site; after every expansion (also with missing "
     "paths, empty repeats, nothing/default) the caller's context holds exactly what it held before apart from explicit global defines; every "
-    "document of a bounded TAL-free grammar expands to an equivalent document that a second expansion leaves unchanged.",
+    "document of a bounded TAL-free grammar expands to an equivalent document that a second expansion leaves unchanged; for an element (ordinary, raw-text script/style, "
+    "void) with a symbolic attribute value and symbolic text, the output reads back as the same element, attribute value and text.",
     "trusted": "CrossHair/z3; plugin html.escape model (validated); reference evaluator spec/tal_ref.py; html.parser for the tree comparison of pass-through documents.",
     "explanation": "Symbolic substituted values vs escaping reference; symbolic gate flag; context snapshots; enumerated document grammar.",
     "assumptions": [
         "values are bounded (|v| <= 4 over & ; a # \" <)",
+        "pass-through with symbolic strings starts at the parser events (handle_starttag/handle_data/handle_endtag with cdata mode for script/style): html.parser's tokenizer is regex-driven and outside the solver's reach; the event contract is validated concretely on every run (C18.3)",
         "the TAL-free document grammar is finite (nesting <= 2, attributes with entity/quote characters, comments, void elements); pass-through is enumeration, not a solver verdict",
     ],
 }
@@ -158,6 +160,10 @@ def _docs():
             docs.append("<ul><li>%s</li><li><b>%s</b></li></ul>" % (a, b))
     docs.append('<!DOCTYPE html><html><head><title>T &amp; t</title></head><body><p>x</p></body></html>')
     docs.append('<table border="0"><tr><td a="1" b="2">x</td></tr></table>')
+    # raw-text elements: their content is not entity-decoded by HTML, so it must come through verbatim
+    docs.append('<html><head><style>ul > li { color: red } a[href*="&"] {}</style></head><body><p>x</p></body></html>')
+    docs.append('<div><script type="text/javascript">if (a < b && c > 0) { t = "<b>"; }</script>after &amp; text</div>')
+    docs.append('<p><script>x = "&lt;";</script><textarea>&lt;t&gt;</textarea><title>a &amp; b</title></p>')
     return docs
 
 
@@ -193,12 +199,136 @@ def _tree(html_text):
     return [x for x in out if not (x[0] == "end" and x[1] in void)]
 
 
+TAGS = ["p", "script", "style", "textarea", "br", "title"]
+RAWTEXT = ("script", "style")  # HTML: content is raw text -- character references are NOT recognised there
+
+
+REPS_TEXT = {"&": ("&amp;",), "<": ("&lt;",), ">": ("&gt;", ">"), chr(34): ("&quot;", chr(34)), chr(39): ("&#x27;", "&#39;", chr(39))}
+REPS_ATTR = {"&": ("&amp;",), "<": ("&lt;", "<"), ">": ("&gt;", ">"), chr(34): ("&quot;",), chr(39): ("&#x27;", "&#39;", chr(39))}
+
+
+def _reads_as(X, v, reps):
+    """Does the HTML source fragment X read back as the character data v?  Written from the HTML
+    syntax: each character of v must appear as itself or as one of its references; & and (in text) <,
+    (in a double-quoted attribute) the double quote must be references."""
+    pos = 0
+    for c in v:
+        for o in reps.get(c, (c,)):
+            if X.startswith(o, pos):
+                pos += len(o)
+                break
+        else:
+            return False
+    return pos == len(X)
+
+
+def _canon(v, reps):
+    out = ""
+    for c in v:
+        out = out + reps.get(c, (c,))[0]
+    return out
+
+
+def body_passthrough_events(tagk: int, av: str, d: str, d2: str) -> bool:
+    """Static markup re-serialised from parser events, with symbolic attribute value and text:
+    <div><TAG title=AV>D</TAG>D2</div>.  The real compiler's event handlers are driven in the order
+    and with the state (cdata mode for script/style) the HTML parser produces them -- the parser
+    itself (regex-driven) is outside the solver's reach; its event contract is validated concretely
+    in fn_passthrough.  The real interpreter then expands the compiled program."""
+    from simpletal import simpleTAL, simpleTALES
+
+    tag = TAGS[tagk]
+
+    def compile_and_expand(av, d, d2):
+        c = simpleTAL.HTMLTemplateCompiler()
+        c.log = T.NullLog()
+        c.minimizeBooleanAtts = False
+        c.handle_starttag("div", [])
+        c.handle_starttag(tag, [("title", av)])
+        if tag in c.CDATA_CONTENT_ELEMENTS:
+            c.set_cdata_mode(tag)
+        if tag != "br":
+            if len(d):
+                c.handle_data(d)
+            c.handle_endtag(tag)
+            c.clear_cdata_mode()
+        if len(d2):
+            c.handle_data(d2)
+        c.handle_endtag("div")
+        t = c.getTemplate()
+        w = T.StrWriter()
+        it = simpleTAL.HTMLTemplateInterpreter()
+        ctx = simpleTALES.Context()
+        ctx.log = T.NullLog()
+        it.initialise(ctx, w)
+        t.expandInline(ctx, w, it)
+        return w.value()
+
+    out = compile_and_expand(av, d, d2)
+    hx.reach()
+    head = "<div><" + tag + ' title="'
+    # the canonical serialisation (minimal escaping) certainly reads back as the same document ...
+    canon = head + _canon(av, REPS_ATTR) + chr(34) + ">" + ("" if tag == "br" else (d if tag in RAWTEXT else _canon(d, REPS_TEXT)) + "</" + tag + ">") + _canon(d2, REPS_TEXT) + "</div>"
+    if out == canon:
+        return True
+    # ... any other output is read independently as HTML (written from the syntax, not from simpleTAL)
+    hx.require(out.startswith(head), "C18:passthrough-start-tag-differs", lambda: "tag=%s av=%r: %r" % (tag, av, out))
+    rest = out[len(head):]
+    q = rest.find(chr(34) + ">")
+    hx.require(q >= 0, "C18:passthrough-attribute-unterminated", lambda: repr(out))
+    A = rest[:q]
+    hx.require(_reads_as(A, av, REPS_ATTR), "C18:passthrough-attribute-value-changed", lambda: "tag=%s title=%r came out as %r" % (tag, av, A))
+    rest = rest[q + 2:]
+    if tag == "br":
+        hx.require(rest.endswith("</div>"), "C18:passthrough-end-tag-missing", lambda: repr(out))
+        D2 = rest[:-6]
+    else:
+        close = "</" + tag + ">"
+        e = rest.find(close)
+        hx.require(e >= 0, "C18:passthrough-end-tag-missing", lambda: repr(out))
+        body = rest[:e]
+        if tag in RAWTEXT:
+            hx.require(body == d, "C18:passthrough-raw-text-element-content-changed", lambda: "<%s> content %r came out as %r" % (tag, d, body))
+        else:
+            hx.require(_reads_as(body, d, REPS_TEXT), "C18:passthrough-text-changed-or-became-markup", lambda: "<%s> text %r came out as %r" % (tag, d, body))
+        tail = rest[e + len(close):]
+        hx.require(tail.endswith("</div>"), "C18:passthrough-end-tag-missing", lambda: repr(out))
+        D2 = tail[:-6]
+    hx.require(_reads_as(D2, d2, REPS_TEXT), "C18:passthrough-text-changed-or-became-markup", lambda: "text %r after <%s> came out as %r" % (d2, tag, D2))
+    return True
+
+
 def fn_passthrough():
     import io
 
     from simpletal import simpleTAL, simpleTALES
 
     docs = _docs()
+    # the parser-event contract body_passthrough_events relies on: order of events, attribute values
+    # and text already entity-decoded, text inside script/style delivered raw while cdata_elem is set
+    ev = []
+
+    class Rec(simpleTAL.HTMLTemplateCompiler):
+        def handle_starttag(self, tag, attributes):
+            ev.append(("start", tag, list(attributes), self.cdata_elem))
+            simpleTAL.HTMLTemplateCompiler.handle_starttag(self, tag, attributes)
+
+        def handle_data(self, data):
+            ev.append(("data", data, self.cdata_elem))
+            simpleTAL.HTMLTemplateCompiler.handle_data(self, data)
+
+        def handle_endtag(self, tag):
+            ev.append(("end", tag, self.cdata_elem))
+            simpleTAL.HTMLTemplateCompiler.handle_endtag(self, tag)
+
+    for tg in TAGS:
+        del ev[:]
+        r = Rec()
+        r.parseTemplate(io.StringIO('<div><%s title="a&amp;&quot;&lt;">x&amp;&lt;y</%s>t&gt;</div>' % (tg, tg) if tg != "br" else '<div><br title="a&amp;&quot;&lt;">t&gt;</div>'))
+        raw = tg in RAWTEXT
+        want = [("start", "div", [], None), ("start", tg, [("title", 'a&"<')], None)] + ([] if tg == "br" else [("data", "x&amp;&lt;y" if raw else "x&<y", tg if raw else None), ("end", tg, tg if raw else None)]) + [("data", "t>", None), ("end", "div", None)]
+        if ev != want:
+            return {"status": "harness_error", "detail": "HTML parser event contract differs for <%s>: %r" % (tg, ev)}
     for d in docs:
         outs = []
         cur = d
@@ -273,6 +403,19 @@ def obligations(tier, seed):
                   bounds="flag in {None, False, True, 0, -3..3, ''} x 8 routing forms (symbolic)", functions=["simpletal.simpleTALES.Context.evaluatePython/evaluate"]))
     obs.append(Ob(id="C18.2b-eval-sites", body="harness.C18:fn_eval_sites", kind="fn", engine="scan", twin=False, timeout=120,
                   desc="the only dynamic-evaluation call site in simpletal is evaluatePython behind the gate; TALFileHandler passes allowpythonpath through", bounds="all files under simpletal/"))
+    for tk, tg in enumerate(TAGS):
+        if tier == "quick" and tg in ("textarea", "title"):
+            continue
+        L = 2 if tier == "quick" else 3
+        for part, pre in (("attr", ["len(av) <= %d" % L, "len(d) == 0", "len(d2) == 0"]), ("text", ["len(av) == 0", "len(d) <= %d" % L, "len(d2) <= 1"])):
+            if tg == "br" and part == "text":
+                pre = ["len(av) == 0", "len(d) == 0", "len(d2) <= %d" % L]
+            obs.append(Ob(id="C18.3b-passthrough-events[%s,%s]" % (tg, part), body="harness.C18:body_passthrough_events", sig="tagk: int, av: str, d: str, d2: str",
+                          pre=["tagk == %d" % tk] + pre + ["all(c in '&<>;a' + chr(34) + chr(39) for c in av + d + d2)"],
+                          timeout=400 if tier == "quick" else 1800,
+                          desc="TAL-free <div><%s title=AV>D</%s>D2</div> with symbolic %s, through the real compiler event handlers and the real interpreter: the output reads back (independent HTML reading) as the same element, attribute value and text%s" % (tg, tg, "attribute value" if part == "attr" else "text", "; script/style content is raw text and a second expansion is the identity" if tg in RAWTEXT else ""),
+                          bounds="|%s| <= %d%s over {& < > ; a \" '}" % ("AV" if part == "attr" else "D", L, "" if part == "attr" else ", |D2| <= 1"),
+                          functions=["simpletal.simpleTAL.HTMLTemplateCompiler.handle_starttag/handle_data/handle_endtag/tagAsText", "simpletal.simpleTAL.TemplateCompiler.parseStartTag/parseData/popTag", "simpletal.simpleTAL.TemplateInterpreter (TAL_OUTPUT)"]))
     obs.append(Ob(id="C18.3-passthrough", body="harness.C18:fn_passthrough", kind="fn", engine="enumeration", twin=False, timeout=300,
                   desc="TAL-free documents expand to an equivalent document; a second expansion changes nothing", bounds="bounded document grammar (enumerated)"))
     return obs
